@@ -1,1 +1,250 @@
+//! KD8 — level-1 path (deflate_quick + fill_window + hash insert) end to end on a typed state, concrete input
+//! length per instance, symbolic contents; oracle = fixed-Huffman reference decoder in the harness (C01, C05, C06, C07, C11).
 use super::*;
+
+const WB: usize = 9; // w_size 512: the smallest for which max_dist = w_size - 262 is positive
+const LB: usize = 16;
+
+struct Bits<'a> {
+    d: &'a [u8],
+    pos: usize,
+}
+impl<'a> Bits<'a> {
+    fn bit(&mut self) -> u32 {
+        let b = (self.d[self.pos >> 3] >> (self.pos & 7)) & 1;
+        self.pos += 1;
+        b as u32
+    }
+    fn bits(&mut self, n: u32) -> u32 {
+        let mut v = 0;
+        let mut i = 0;
+        while i < n {
+            v |= self.bit() << i;
+            i += 1;
+        }
+        v
+    }
+    fn code(&mut self, n: u32) -> u32 {
+        let mut v = 0;
+        let mut i = 0;
+        while i < n {
+            v = (v << 1) | self.bit();
+            i += 1;
+        }
+        v
+    }
+}
+
+/// reference decoder for a sequence of fixed-Huffman blocks (RFC 1951 3.2.6); returns (bytes, saw final block, bit position)
+fn ref_inflate_fixed(src: &[u8], dst: &mut [u8], max_syms: usize) -> Option<(usize, bool, usize)> {
+    let mut b = Bits { d: src, pos: 0 };
+    let hdr = b.bits(3);
+    if hdr & 6 != 2 {
+        return None; // BTYPE must be 01
+    }
+    let last = hdr & 1 != 0;
+    let mut n = 0usize;
+    let mut guard = 0;
+    while guard < max_syms {
+        guard += 1;
+        let mut c = b.code(7);
+        let sym = if c <= 0x17 {
+            256 + c
+        } else {
+            c = (c << 1) | b.bit();
+            if c >= 0x30 && c <= 0xbf {
+                c - 0x30
+            } else if c >= 0xc0 && c <= 0xc7 {
+                280 + c - 0xc0
+            } else {
+                c = (c << 1) | b.bit();
+                144 + c - 0x190
+            }
+        };
+        if sym < 256 {
+            if n >= dst.len() {
+                return None;
+            }
+            dst[n] = sym as u8;
+            n += 1;
+        } else if sym == 256 {
+            return Some((n, last, b.pos));
+        } else {
+            let li = (sym - 257) as usize;
+            if li >= 29 {
+                return None;
+            }
+            let len = RFC_LBASE[li] as usize + b.bits(RFC_LEXT[li] as u32) as usize;
+            let dc = b.code(5) as usize;
+            if dc >= 30 {
+                return None;
+            }
+            let dist = RFC_DBASE[dc] as usize + b.bits(RFC_DEXT[dc] as u32) as usize;
+            if dist > n || n + len > dst.len() {
+                return None; // reaches before the start of the data
+            }
+            let mut k = 0;
+            while k < len {
+                dst[n] = dst[n - dist];
+                n += 1;
+                k += 1;
+            }
+        }
+    }
+    None
+}
+
+fn quick_finish<const N: usize>() {
+    let mut w = [0u8; 2 << WB];
+    let mut p = [0u16; 1 << WB];
+    let mut h = [0u16; HASH_SIZE];
+    let mut pe = [MaybeUninit::new(0u8); 4 * LB];
+    let mut sy = [0u8; 3 * LB];
+    let mut state = typed_state(&mut w, &mut p, &mut h, &mut pe, &mut sy, WB, LB, 1, 0, Strategy::Default);
+    let mut stream = typed_stream(unsafe { &mut *(&mut state as *mut State) });
+    assert!(reset(&mut stream) == ReturnCode::Ok);
+    let input: [u8; N] = kani::any();
+    let mut out = [0u8; 16];
+    const SPACE: u32 = 14;
+    stream.next_in = input.as_ptr() as *mut u8;
+    stream.avail_in = N as u32;
+    stream.next_out = out.as_mut_ptr();
+    stream.avail_out = SPACE;
+    let b = bound(Some(&mut stream), N);
+    let rc = deflate(&mut stream, DeflateFlush::Finish);
+    assert!(rc == ReturnCode::StreamEnd);
+    let produced = (SPACE - stream.avail_out) as usize;
+    assert!(stream.total_in as usize == N && stream.avail_in == 0 && stream.total_out as usize == produced);
+    assert!(produced <= b, "deflateBound is an upper bound (level 1, this length)");
+    assert!(out[14] == 0 && out[15] == 0);
+    core::mem::forget(stream);
+    core::mem::forget(state);
+    let mut back = [0u8; N];
+    let r = ref_inflate_fixed(&out, &mut back, N + 1);
+    match r {
+        Some((n, last, bitpos)) => {
+            assert!(n == N && last, "one final fixed block holding all the input");
+            assert!((bitpos + 7) / 8 == produced, "nothing after the final block but padding");
+            let mut i = 0;
+            while i < N {
+                assert!(back[i] == input[i]);
+                i += 1;
+            }
+        }
+        None => assert!(false, "emitted stream is not a valid fixed-Huffman block"),
+    }
+    kani::cover!(N < 5 || produced < N + 2, "end reached (for N >= 5: shorter than literal coding, i.e. a match was emitted)");
+}
+
+#[kani::proof]
+#[kani::unwind(12)]
+#[kani::stub(core::fmt::write, stub_fmt_write)]
+#[kani::stub(core::panicking::panic_nounwind, stub_pn)]
+#[kani::stub(core::panicking::panic_nounwind_fmt, stub_pnf)]
+#[kani::stub(<[u16]>::fill, stub_fill_zero)]
+#[kani::stub(<[u8]>::fill, stub_fill_zero)]
+#[kani::stub(crate::deflate::State::init_block, stub_init_block)]
+fn kd8_quick_finish_n3() {
+    quick_finish::<3>();
+}
+
+#[kani::proof]
+#[kani::unwind(12)]
+#[kani::stub(core::fmt::write, stub_fmt_write)]
+#[kani::stub(core::panicking::panic_nounwind, stub_pn)]
+#[kani::stub(core::panicking::panic_nounwind_fmt, stub_pnf)]
+#[kani::stub(<[u16]>::fill, stub_fill_zero)]
+#[kani::stub(<[u8]>::fill, stub_fill_zero)]
+#[kani::stub(crate::deflate::State::init_block, stub_init_block)]
+fn kd8_quick_finish_n1() {
+    quick_finish::<1>();
+}
+
+#[kani::proof]
+#[kani::unwind(14)]
+#[kani::stub(core::fmt::write, stub_fmt_write)]
+#[kani::stub(core::panicking::panic_nounwind, stub_pn)]
+#[kani::stub(core::panicking::panic_nounwind_fmt, stub_pnf)]
+#[kani::stub(<[u16]>::fill, stub_fill_zero)]
+#[kani::stub(<[u8]>::fill, stub_fill_zero)]
+#[kani::stub(crate::deflate::State::init_block, stub_init_block)]
+fn kd8_quick_finish_n5() {
+    quick_finish::<5>();
+}
+
+/// `init_block` clears 286 + 30 + 19 frequency counters in three loops; level 1 never reads them.  Model: same
+/// post-state for every field the quick path uses (opt_len, static_len, sym_buf, matches), frequencies via write_bytes.
+pub(crate) fn stub_init_block<'a>(s: &mut State<'a>)
+where
+    'a: 'a,
+{
+    unsafe {
+        core::ptr::write_bytes(s.l_desc.dyn_tree.as_mut_ptr(), 0, L_CODES);
+        core::ptr::write_bytes(s.d_desc.dyn_tree.as_mut_ptr(), 0, D_CODES);
+        core::ptr::write_bytes(s.bl_desc.dyn_tree.as_mut_ptr(), 0, BL_CODES);
+    }
+    *s.l_desc.dyn_tree[256].freq_mut() = 1;
+    s.opt_len = 0;
+    s.static_len = 0;
+    s.sym_buf.clear();
+    s.matches = 0;
+}
+
+/// Sync flush at level 1: the block is closed, the output so far decodes to all the input, followed by the marker (C11)
+#[kani::proof]
+#[kani::unwind(12)]
+#[kani::stub(core::fmt::write, stub_fmt_write)]
+#[kani::stub(core::panicking::panic_nounwind, stub_pn)]
+#[kani::stub(core::panicking::panic_nounwind_fmt, stub_pnf)]
+#[kani::stub(<[u16]>::fill, stub_fill_zero)]
+#[kani::stub(<[u8]>::fill, stub_fill_zero)]
+#[kani::stub(crate::deflate::State::init_block, stub_init_block)]
+fn kd8_quick_sync_n3() {
+    const N: usize = 3;
+    let mut w = [0u8; 2 << WB];
+    let mut p = [0u16; 1 << WB];
+    let mut h = [0u16; HASH_SIZE];
+    let mut pe = [MaybeUninit::new(0u8); 4 * LB];
+    let mut sy = [0u8; 3 * LB];
+    let mut state = typed_state(&mut w, &mut p, &mut h, &mut pe, &mut sy, WB, LB, 1, 0, Strategy::Default);
+    let mut stream = typed_stream(unsafe { &mut *(&mut state as *mut State) });
+    assert!(reset(&mut stream) == ReturnCode::Ok);
+    let input: [u8; N] = kani::any();
+    let mut out = [0u8; 20];
+    stream.next_in = input.as_ptr() as *mut u8;
+    stream.avail_in = N as u32;
+    stream.next_out = out.as_mut_ptr();
+    stream.avail_out = 18;
+    let full: bool = kani::any();
+    let rc = deflate(&mut stream, if full { DeflateFlush::FullFlush } else { DeflateFlush::SyncFlush });
+    assert!(rc == ReturnCode::Ok);
+    let produced = (18 - stream.avail_out) as usize;
+    assert!(stream.avail_in == 0 && stream.avail_out > 0);
+    assert!(stream.state.block_open == 0 && stream.state.bit_writer.bits_valid == 0, "byte aligned after the flush");
+    if full {
+        assert!(stream.state.strstart == 0 && stream.state.block_start == 0);
+    }
+    core::mem::forget(stream);
+    core::mem::forget(state);
+    let mut back = [0u8; N];
+    let r = ref_inflate_fixed(&out, &mut back, N + 1);
+    match r {
+        Some((n, last, bitpos)) => {
+            assert!(n == N && !last);
+            let mut i = 0;
+            while i < N {
+                assert!(back[i] == input[i]);
+                i += 1;
+            }
+            // then: empty stored block, byte aligned: (3 header bits, padding) 00 00 FF FF
+            let hdr_byte = bitpos / 8;
+            assert!((out[hdr_byte] >> (bitpos % 8)) & 7 == 0, "BFINAL 0, BTYPE 00");
+            assert!(produced >= 4);
+            assert!(out[produced - 4] == 0 && out[produced - 3] == 0 && out[produced - 2] == 0xff && out[produced - 1] == 0xff);
+            assert!(produced - 4 == (bitpos + 3 + 7) / 8);
+        }
+        None => assert!(false, "flushed prefix is not a valid fixed-Huffman block"),
+    }
+    kani::cover!(full);
+    kani::cover!(!full && produced == 9);
+}
